@@ -15,7 +15,10 @@ ASSUMPTIONS = __import__('harness.c06', fromlist=['x']).ASSUMPTIONS + [
     'the struct stream is decided by the oracle only (the model has no integrated wire+struct view); the proof part for it is that view is a function of the current store and that every structural operation sets the view_expire flag',
 ]
 IMPORTS, CHECK_FN, BAD_TERM = wire.IMPORTS, wire.CHECK_FN, wire.BAD_TERM
-model_output = wire.model_output
+def model_output(case, ob):
+    if case['kind'] == 'live':
+        return common.coq_eval('LIVE', live.IMPORTS, 'model_out_all %s' % live.render(case, ob))[:4000]
+    return wire.model_output(case, ob)
 
 
 def generate(seed, tier, enlarged=False):
@@ -23,6 +26,7 @@ def generate(seed, tier, enlarged=False):
     n = 200 if tier == 'quick' else 4000
     if enlarged:
         n *= 3
+    wire.GLOBDICT_WEIGHT[0] = 2
     cases = wire.gen_cases(rng, n, ['view'], 3 if tier == 'quick' else 4)
     for i in range(n // 3):
         cases.append({'kind': 'structview', 'hist': struct.gen_history(rng, rng.randint(3, 8), allow_bad=False)})
@@ -163,4 +167,13 @@ def nontrivial(c, ob):
 
 
 def run(cases, tier='quick', seed=0):
-    return common.generic_run(__import__('harness.c07', fromlist=['x']), cases, seed, shard=60)
+    me = __import__('harness.c07', fromlist=['x'])
+
+    class Live:
+        __name__ = 'harness.live'
+        IMPORTS, CHECK_FN, BAD_TERM = live.IMPORTS, live.CHECK_FN, live.BAD_TERM
+        run_impl, oracle, render = staticmethod(live.run_impl), staticmethod(live.oracle), staticmethod(live.render)
+        nontrivial, stat_key = staticmethod(live.nontrivial), staticmethod(live.stat_key)
+    return common.merge_streams(cases, [
+        (lambda c: c['kind'] != 'live', lambda cs: common.generic_run(me, cs, seed, shard=60)),
+        (lambda c: c['kind'] == 'live', lambda cs: common.generic_run(Live, cs, seed, shard=20))])
